@@ -1415,6 +1415,57 @@ def run_rules(m, r):
                     f"{st.target.id} is left out of RouteEntry's equality: two different routes that differ only in it (10.0.0.0/8 and 10.0.0.0/16 through one next hop) count as one — the second is never queued, and deleting one drops the other from the waiting list")
     r.floor("R20.11 fields of RouteEntry", len(fields_seen), 4)
 
+    # ------------------------------------------------------------------ R20.14
+    # the three caches are created once, with the types their users rely on (the gate counter is a defaultdict:
+    # a plain dict in its place raises KeyError for every new lookup module): nothing replaces them later
+    CACHES = ("_unresolved_arp_queries_cache", "_neighbor_cache", "_module_gate_count_cache")
+    n_init = 0
+    for fnode in [x for x in ast.walk(m.tree) if isinstance(x, ast.FunctionDef)]:
+        for n in ast.walk(fnode):
+            tgts = []
+            if isinstance(n, ast.Assign):
+                tgts = n.targets
+            elif isinstance(n, (ast.AnnAssign, ast.AugAssign)):
+                tgts = [n.target]
+            for t in tgts:
+                if isinstance(t, ast.Attribute) and isinstance(t.value, ast.Name) and t.value.id == "self" and t.attr in CACHES:
+                    if fnode.name == "__init__":
+                        n_init += 1
+                        continue
+                    r.bad("R20.14", f"{RC}.{fnode.name}", f"{t.attr} is created once", m.pos(n),
+                          f"{fnode.name} replaces self.{t.attr} by a new object: the cache loses the type it was created with (the gate counter is a defaultdict — as a plain dict every route through a new lookup module raises KeyError, in the SIGHUP handler and in every netlink event after it) and whoever holds the old object works on a dead copy")
+    r.floor("R20.14 caches created in __init__", n_init, 3)
+    if n_init >= 3:
+        r.ok("R20.14", f"{RC}.__init__", "the caches are created once", m.pos(add_nb), "no re-assignment outside __init__")
+    # ------------------------------------------------------------------ R20.15
+    # start-up and run time see the same routes: the bootstrap dump is not narrower (a table, a protocol, a scope)
+    # than what the netlink route handler mirrors, which takes every IPv4 route message
+    boot = m.method(RC, "bootstrap_routes", "R20.15")
+    dumps = [c for c in ast.walk(boot) if isinstance(c, ast.Call) and isinstance(c.func, ast.Attribute) and c.func.attr == "get_routes"]
+    r.floor("R20.15 route dumps in bootstrap_routes", len(dumps), 1)
+    for c in dumps:
+        extra = [kw.arg for kw in c.keywords if kw.arg not in ("family",)] + (["<positional>"] if c.args else [])
+        r.check(not extra, "R20.15", fn(boot), "the bootstrap dumps every IPv4 route the handler would mirror", m.pos(c), "get_routes(family=AF_INET)",
+                f"the bootstrap dump is restricted by {extra} while the netlink handler mirrors routes of every table: a route outside that selection is installed when it appears at run time, missing after a start, and dropped from BESS at the next SIGHUP although the kernel still has it")
+    # ------------------------------------------------------------------ R20.16
+    # BESS is asked first: nothing of the next hop's bookkeeping (Update module, links, neighbor entry, gate
+    # counter) is touched before add_route_to_module succeeded — a refused route must leave nothing behind
+    for i_st, st in enumerate(add_nb.body):
+        if isinstance(st, ast.Try) and any(isinstance(x, ast.Call) and isinstance(x.func, ast.Attribute) and x.func.attr == "add_route_to_module" for x in ast.walk(st)):
+            early = None
+            for prev in add_nb.body[:i_st]:
+                for x in ast.walk(prev):
+                    if isinstance(x, ast.Call) and isinstance(x.func, ast.Attribute) and (x.func.attr.startswith("_create_") or x.func.attr in ("create_module", "link_modules")):
+                        early = x
+                    if isinstance(x, (ast.Assign, ast.AugAssign)):
+                        for t in (x.targets if isinstance(x, ast.Assign) else [x.target]):
+                            if any(cn in ast.unparse(t) for cn in CACHES):
+                                early = x
+            r.check(early is None, "R20.16", fn(add_nb), "the next hop's modules and entries are set up only after BESS took the route", m.pos(early or st), "add_route_to_module first",
+                    "the Update module, its links, the neighbor entry or the gate counter are set up before add_route_to_module: when BESS refuses the route (table full) they stay behind with route_count 0 — a module that no installed route uses, and a gate that is never handed out again")
+            break
+    else:
+        r.bad("R20.16", fn(add_nb), "the route is added to BESS in _add_neighbor", m.pos(add_nb), "no top-level try around add_route_to_module in _add_neighbor")
     # ------------------------------------------------------------------ R20.12
     # a route that waits for its next hop is recorded whatever happens to the probe: nothing that can leave
     # _probe_addr (a return in an earlier statement, an exception handler of a try the append sits in or
